@@ -16,6 +16,7 @@ pub fn check_program(p: &Program) -> (Vec<Violation>, RunStats) {
         Program::Pipe(p) => check_pipe(p),
         Program::Gen(g) => check_gen(g),
         Program::Roll(r) => check_roll(r),
+        Program::Typed(t) => crate::typed::check_typed(t),
     }
 }
 
@@ -23,17 +24,19 @@ pub fn check_program(p: &Program) -> (Vec<Violation>, RunStats) {
 pub enum Source {
     Seeded { name: &'static str, stream_id: u64, cfg: GenCfg, runs: u64 },
     Directed { name: &'static str, programs: Arc<Vec<Program>> },
+    /// seeded statically typed scenarios (typed.rs)
+    SeededTyped { name: &'static str, stream_id: u64, max_len: usize, runs: u64 },
 }
 
 impl Source {
     pub fn name(&self) -> &'static str {
         match self {
-            Source::Seeded { name, .. } | Source::Directed { name, .. } => name,
+            Source::Seeded { name, .. } | Source::Directed { name, .. } | Source::SeededTyped { name, .. } => name,
         }
     }
     pub fn len(&self) -> u64 {
         match self {
-            Source::Seeded { runs, .. } => *runs,
+            Source::Seeded { runs, .. } | Source::SeededTyped { runs, .. } => *runs,
             Source::Directed { programs, .. } => programs.len() as u64,
         }
     }
@@ -44,6 +47,10 @@ impl Source {
                 Program::Pipe(gen_pipe(&mut rng, cfg))
             },
             Source::Directed { programs, .. } => programs[idx as usize].clone(),
+            Source::SeededTyped { stream_id, max_len, .. } => {
+                let mut rng = Rng::for_run(seed, idx, *stream_id);
+                Program::Typed(crate::typed::gen_typed(&mut rng, *max_len))
+            },
         }
     }
 }
@@ -129,6 +136,13 @@ pub fn plan(prop: &str, tier: &str, polars: bool, scale: f64) -> Plan {
                     name: "directed/rolling-default-paths",
                     programs: Arc::new(directed::rolling(if thorough { 9 } else { 6 })),
                 },
+                Source::Directed {
+                    name: "directed/typed-consumption-methods",
+                    programs: Arc::new(
+                        crate::typed::directed(if thorough { 7 } else { 5 }).into_iter().map(Program::Typed).collect(),
+                    ),
+                },
+                Source::SeededTyped { name: "seeded/typed", stream_id: 3, max_len, runs: n(150_000, 1_500_000) },
                 Source::Seeded {
                     name: "seeded/pipelines",
                     stream_id: 1,
